@@ -669,7 +669,7 @@ func (sr *SqlRun) minFrames() int {
 	for _, t := range sr.Cfg.LateTables {
 		cols += len(t.Cols)
 	}
-	return 2*cols + 12
+	return 3*cols + 8 // three permanently pinned pages per skip-list index + head-room for a statement
 }
 
 // heapRows: full scan with row ids.
